@@ -95,7 +95,7 @@ def main(argv=None):
 
 def verdict(prop, tier, seed, mods, results, wall, write=True, mres=None, scratch=None):
     known, fixed = core.load_known()
-    known_ids = {(e["property"], e["obligation"]): e for e in known}
+    known_ids = {e["obligation"]: e for e in known}      # an obligation may serve several properties
     undecided = [r for r in results if r.undecided]
     obligations = {}
     failed = {}
@@ -118,7 +118,7 @@ def verdict(prop, tier, seed, mods, results, wall, write=True, mres=None, scratc
     violations = []
     known_seen = []
     for key, f in sorted(failed.items()):
-        e = known_ids.get((prop, f["id"]))
+        e = known_ids.get(f["id"])
         if e is not None and (not e.get("cfg") or e.get("cfg") == f.get("cfg")):
             known_seen.append((e, f))
         else:
